@@ -196,8 +196,15 @@ class chain(AsyncIterator[T]):
         """
         return cls(_iterables=iterable)
 
-    def __anext__(self) -> Awaitable[T]:
-        return self._iterator.__anext__()
+    async def __anext__(self) -> T:
+        try:
+            return await self._iterator.__anext__()
+        except StopAsyncIteration:
+            raise
+        except BaseException:
+            # the chain failed: also close the owned iterators it did not reach yet
+            await _close_all(self._owned_iterators)
+            raise
 
     async def aclose(self) -> None:
         try:
